@@ -245,5 +245,12 @@ def callTimeout (dflt : Int) : List (Option Int) → Int
   | some t :: _ => t
   | none :: rest => callTimeout dflt rest
 
+/-- the property's timeout of a zRPC client call from the CONFIGURATION: the first `WithCallTimeout` of the call, else the
+last `zrpc.WithTimeout` client option, else `RpcClientConf.Timeout` (ms) if positive, else none (0) -/
+def clientTimeout (confMs : Int) (userTimeouts : List Int) (callOpts : List (Option Int)) : Int :=
+  callTimeout (match userTimeouts.getLast? with
+    | some u => u
+    | none => if confMs > 0 then confMs * 1000000 else 0) callOpts
+
 end Spec
 end GoZero.C04
